@@ -583,6 +583,12 @@ bool read_number(const char *in, Option<T> &out)
 {
    assert(in);
 
+   if (*in == 0)
+   {
+      // an empty value is not a number (strtol() would make it 0)
+      out.warnUnexpectedValue(in);
+      return(false);
+   }
    char       *c;
    const auto val = std::strtol(in, &c, 10);
 
@@ -716,7 +722,8 @@ bool Option<bool>::read(const char *in)
    }
    bool invert = false;
 
-   if (strchr("~!-", in[0]))
+   if (  in[0] != 0                    // (strchr() also finds the terminator)
+      && strchr("~!-", in[0]))
    {
       invert = true;
       ++in;
